@@ -11,7 +11,7 @@ def R(v):
 
 def grid(rng, nmin, nmax, den=2, gaps=(1, 2, 3), uniform_p=0.3):
     n = rng.randint(nmin, nmax)
-    t = Fraction(rng.choice([0, 0, 3, -5]), 1)
+    t = Fraction(rng.choice([0, 0, 3, -5, -1, -2, -3]), rng.choice([1, 1, 2]))
     g0 = Fraction(rng.choice(gaps), den)
     uni = rng.random() < uniform_p
     xs = []
@@ -157,12 +157,7 @@ def run_match_check(pid, rule, negatives):
             c.count_nontrivial(json.dumps(case_of_event(e), sort_keys=True))
     if not c.replay_path:
         for pred, mut, prefix in negatives:
-            src = next((e for e in evs if pred(e)), None)
-            if src is None:
-                raise RuntimeError("no event for negative control " + prefix)
-            e = copy.deepcopy(src)
-            mut(e)
-            c.add_negative(e, prefix)
+            c.negative_from(evs, pred, mut, prefix)
     c.rule = rule
     c.coverage_extra = {"lattice_cases_from_tlc": lattice, "lattice_cases_in_scope": judged, "harness_originated_cases": len(cases) - lattice}
     c.assumptions = ["TLC 1.8, CommunityModules Json/IOUtils",
